@@ -33,10 +33,12 @@ func verifSchema() *thrift.TypeDescriptor {
 		thrift.VField{ID: 11, Name: "im", Type: thrift.VerifMap(thrift.VerifBasic(thrift.I64), thrift.VerifBasic(thrift.STRING)), Req: 2},
 		thrift.VField{ID: 12, Name: "sub", Type: inner, Req: 2},
 		thrift.VField{ID: 13, Name: "ss", Type: thrift.VerifSet(thrift.VerifBasic(thrift.STRING)), Req: 2},
+		thrift.VField{ID: 14, Name: "bm", Type: thrift.VerifMap(thrift.VerifBasic(thrift.BYTE), thrift.VerifBasic(thrift.I32)), Req: 2},
+		thrift.VField{ID: 15, Name: "hm", Type: thrift.VerifMap(thrift.VerifBasic(thrift.I16), thrift.VerifBasic(thrift.BOOL)), Req: 2},
 	)
 }
 
-var verifAlias = map[int]string{1: "bb", 2: "y", 3: "h", 4: "i", 5: "l", 6: "d", 7: "s", 8: "bin", 9: "xs", 10: "m", 11: "im", 12: "sub", 13: "ss"}
+var verifAlias = map[int]string{1: "bb", 2: "y", 3: "h", 4: "i", 5: "l", 6: "d", 7: "s", 8: "bin", 9: "xs", 10: "m", 11: "im", 12: "sub", 13: "ss", 14: "bm", 15: "hm"}
 
 func verifTok(out []byte, n vrt.JNode) []byte     { return out[n.Start:n.End] }
 func verifStrBody(out []byte, n vrt.JNode) []byte { return out[n.Start+1 : n.End-1] }
@@ -142,6 +144,22 @@ func VerifC03_Field() {
 			in = vrt.PutBE32(vrt.PutField(in, vrt.TI32, 1), x)
 		}
 		in = append(in, 0)
+	case 14:
+		in = vrt.PutMapHdr(vrt.PutField(in, vrt.TMAP, 14), vrt.TBYTE, vrt.TI32, cnt)
+		for i := 0; i < cnt; i++ {
+			k := vrt.U8()
+			x := int(int32(vrt.U32()))
+			vIKeys = append(vIKeys, int64(k))
+			vInts = append(vInts, x)
+			in = vrt.PutBE32(append(in, k), x)
+		}
+	case 15:
+		in = vrt.PutMapHdr(vrt.PutField(in, vrt.TMAP, 15), vrt.TI16, vrt.TBOOL, cnt)
+		for i := 0; i < cnt; i++ {
+			k := int16(vrt.U16())
+			vIKeys = append(vIKeys, int64(k))
+			in = append(vrt.PutBE16(in, int(k)), 1)
+		}
 	case 13:
 		in = vrt.PutListHdr(vrt.PutField(in, vrt.TSET, 13), vrt.TSTRING, cnt)
 		for i := 0; i < cnt; i++ {
@@ -249,6 +267,28 @@ func VerifC03_Field() {
 				got, ok := vrt.JNumInt(verifStrBody(out, v.Keys[i]))
 				vrt.Assert(ok && got == vIKeys[i], "C03.intmap.key")
 				vrt.Assert(verifStrIs(out, v.Elems[i], vKeys[i]), "C03.intmap.value")
+			}
+		}
+	case 14:
+		vrt.Assert(v.Kind == vrt.JObject && len(v.Keys) == cnt, "C03.bytemap.shape")
+		if v.Kind == vrt.JObject && len(v.Keys) == cnt {
+			for i := range vIKeys {
+				got, ok := vrt.JNumInt(verifStrBody(out, v.Keys[i]))
+				want := int64(int8(vIKeys[i]))
+				if opts.ByteAsUint8 {
+					want = vIKeys[i]
+				}
+				vrt.Assert(ok && got == want, "C03.bytemap.key")
+				vrt.Assert(verifIntIs(out, v.Elems[i], int64(vInts[i])), "C03.bytemap.value")
+			}
+		}
+	case 15:
+		vrt.Assert(v.Kind == vrt.JObject && len(v.Keys) == cnt, "C03.i16map.shape")
+		if v.Kind == vrt.JObject && len(v.Keys) == cnt {
+			for i := range vIKeys {
+				got, ok := vrt.JNumInt(verifStrBody(out, v.Keys[i]))
+				vrt.Assert(ok && got == vIKeys[i], "C03.i16map.key")
+				vrt.Assert(v.Elems[i].Kind == vrt.JTrue, "C03.i16map.value")
 			}
 		}
 	case 12:
